@@ -237,143 +237,162 @@ def correspondence(ctx):
     legacy = [synth.legacy_frame(rng) for _ in range(12 if ctx.quick() else 80)]
     nlegacy = len(legacy)
     seeds = seeds + legacy
-    nmut = 30000 if ctx.quick() else 600000
-    ops, info = [], []
-    for i in range(nmut):
-        f, x = rng.choice(seeds) if i % 8 else rng.choice(legacy)
-        m = mutate(rng, f, [s[0] for s in seeds[:20]])
-        cap = rng.choice([len(x), len(x), len(x) + 100, max(0, len(x) - 1), 0, 1 << 20])
-        hx = frames.hx(m)
-        r = rng.random()
-        if r < 0.45:
-            ops.append("dec %d %s" % (cap, hx)); info.append(("dec", m, cap))
-        elif r < 0.70:
-            ops.append("decs %d %s %s %s" % (cap, hx, rng.choice(["1", "3,1,100", "100000", "7", "2000"]), rng.choice(["100000", "1", "64,5"]))); info.append(("decs", m, cap))
-        elif r < 0.80:
-            ops.append("bufless %d %s" % (cap, hx)); info.append(("bufless", m, cap))
-        elif r < 0.88:
-            ops.append("insp " + hx); info.append(("insp", m, cap))
-        elif r < 0.93:
-            ops.append("fsize " + hx); info.append(("fsize", m, cap))
-        else:
-            d = rng.choice(MAGICS[-1:] + [b""]) + datagen.randbytes(rng, rng.choice([0, 4, 8, 40, 300])) + (f[:rng.randint(0, 200)])
-            ops.append("ddict " + frames.hx(d)); info.append(("ddict", d, 0))
-    # directed VALID inputs (untrusted input includes perfectly valid frames): raw literals referenced in place inside the last block of an
-    # exact-size input, short sequences section behind them, long literal runs ending at the end of the literals (over-reading copies)
-    nvalid = 0
-    for i in range(400 if ctx.quick() else 6000):
-        f, x = synth.rawlit_tail(rng)
-        hx = frames.hx(f)
-        cap = rng.choice([len(x) + 32, len(x) + 64, len(x) + 1000, len(x), 1 << 20])
-        r = i % 4
-        if r < 2:
-            ops.append("dec %d %s" % (cap, hx)); info.append(("dec", f, cap))
-        elif r == 2:
-            ops.append("decs %d %s %s %s" % (cap, hx, rng.choice(["100000", "100000", "7,100000"]), "100000")); info.append(("decs", f, cap))
-        else:
-            ops.append("bufless %d %s" % (cap, hx)); info.append(("bufless", f, cap))
-        nvalid += 1
-    for n, fid in ((1, 1000), (1, 7), (16, 1003), (17, 5), (48, 1), (63, 99), (64, 200), (65, 1064), (130, 77)):
-        ops.append("multidd %d %d" % (n, fid)); info.append(("multidd", b"", 0))
-    chunks = frames.split_chunks(list(range(len(ops))), 16)
-    def run(idx):
-        rc, out, err = frames.run_lines(exe, [ops[i] for i in idx], timeout=900)
-        return [(rc, out, err, idx)]
-    res = frames.parallel(run, chunks)
-    cres = {}
-    for rc, out, err, idx in res:
-        # multidd prints 2 lines
-        k = 0
-        for i in idx:
-            nl = 2 if ops[i].startswith("multidd") else 1
-            cres[i] = out[k:k + nl] if k + nl <= len(out) else None
-            k += nl
-        if rc != 0:
-            # first op without complete output is the culprit
-            bad = next((i for i in idx if cres[i] is None or (cres[i] and cres[i][-1] == "TIMEOUT")), idx[-1])
-            what = "did not return within its alarm (hang)" if any(o == "TIMEOUT" for o in out) else "aborted (sanitizer report / crash)"
-            ctx.violation("decoding entry point %s on untrusted input: %s %s" % (what, ops[bad][:80], err[-600:]),
-                          dict(kind="monitor", op=ops[bad][:400000], stderr=err[-3000:]))
-    ev_settings = settings_and_histories(ctx, plain)
-    # the prefetching ("long") sequence decoder, normally reached only behind a cold dictionary or > 16 MiB of history: the sanitizer build with
-    # that decoder forced decodes frames with > 64 KiB of literals and a few very long matches (split literal buffer, hand-over among the last
-    # sequences) into exact, slightly too small and far too small capacities, plus mutants of those frames and a sample of the other operations
-    lexe = frames.harness("seqlongsan")
-    lops = []
-    for i in range(120 if ctx.quick() else 2000):
-        f, x, hand = synth.biglit_frame(rng, True)
-        if i % 3 == 2:
-            f = mutate(rng, f, [])
-        cap = rng.choice([len(x), len(x) - 1, len(x) - rng.randint(2, 600), len(x) - rng.randint(600, 6000), rng.randrange(0, len(x)), len(x) + 64])
-        if hand and hand[1] > 0 and i % 2 == 0:
-            # the destination ends inside the literals that the hand-over sequence still has to copy out of the destination-resident part
-            cap = hand[0] + rng.randrange(0, hand[1])
-        lops.append(rng.choice(["dec %d %s", "dec %d %s", "bufless %d %s"]) % (max(0, cap), frames.hx(f)) if i % 4 else "decs %d %s %s %s" % (max(0, cap), frames.hx(f), rng.choice(["100000", "1000", "7,100000"]), rng.choice(["100000", "1000"])))
-    for i in range(60 if ctx.quick() else 1000):
-        # invalid frames: the first match fills the destination to a few bytes before its end, the next literal run crosses the hand-over point
-        f, cap = synth.overfull_frame(rng)
-        lops.append(rng.choice(["dec %d %s", "dec %d %s", "bufless %d %s"]) % (cap, frames.hx(f)) if i % 4 else "decs %d %s %s %s" % (cap, frames.hx(f), "100000", "100000"))
-    lops += [ops[i] for i in range(0, len(ops), 25) if ops[i].split()[0] in ("dec", "decs", "bufless")]
-    def lrun(idx):
-        rc, out, err = frames.run_lines(lexe, [lops[i] for i in idx], timeout=900)
-        return [(rc, out, err, idx)]
-    for rc, out, err, idx in frames.parallel(lrun, frames.split_chunks(list(range(len(lops))), 16)):
-        ev_long = len(out)
-        if rc != 0:
-            bad = idx[min(len(out), len(idx) - 1)]
-            ctx.violation("decoding entry point aborted (sanitizer report / crash) in the build with the prefetching sequence decoder forced: %s %s" % (lops[bad][:80], err[-600:]),
-                          dict(kind="monitor", op=lops[bad][:400000], variant="seqlongsan", stderr=err[-3000:]))
-        for i, o in zip(idx, out):
-            w = lops[i].split()
-            if o.startswith("ok") and w[0] in ("dec", "decs", "bufless") and int(o.split()[1]) > int(w[1]):
-                ctx.violation("%s (prefetching decoder) returned %s bytes for capacity %s" % (w[0], o.split()[1], w[1]), dict(kind="monitor", op=lops[i][:400000], variant="seqlongsan", result=o))
-    # model comparison for one-shot decode + frame size
-    mi = [i for i in range(len(ops)) if info[i][0] in ("dec", "fsize")]
-    mres = dict(zip(mi, frames.parallel(lambda ch: frames.model_lines(ch), frames.split_chunks([ops[i] for i in mi], 16))))
-    verd = {"ok/ok": 0, "err/err": 0, "lax": 0, "legacy": 0}
-    ev = 0
-    for i in range(len(ops)):
-        c = cres.get(i)
-        if not c:
-            continue
-        ev += 1
-        kind, m, cap = info[i]
-        c0 = c[0]
-        if kind in ("dec", "decs", "bufless") and c0.startswith("ok"):
-            n = int(c0.split()[1])
-            if n > cap:
-                ctx.violation("%s returned %d bytes for capacity %d" % (kind, n, cap), dict(kind="monitor", op=ops[i][:400000], result=c0))
-        if kind == "decs" and "calls=" in c0 and int(c0.split("calls=")[1].split()[0]) >= 1999999:
-            ctx.violation("streaming decoder looped without progress", dict(kind="monitor", op=ops[i][:400000], result=c0))
-        if i in mres:
-            mm = mres[i]
-            if mm.startswith("err lax") :
-                verd["lax"] += 1; continue
-            if mm.startswith("err legacy"):
-                verd["legacy"] += 1; continue
-            if kind == "fsize":
-                agree = (c0 == mm) or (c0.startswith("err") and mm.startswith("err"))
+    def batch(nmut, nraw, nbig, nover, first):
+        """one batch of mutants + directed inputs: generated, run, compared, scored and dropped (the thorough tier's 600000 mutants with their hex forms do not
+        fit in memory at once)"""
+        ops, info = [], []
+        for i in range(nmut):
+            f, x = rng.choice(seeds) if i % 8 else rng.choice(legacy)
+            m = mutate(rng, f, [s[0] for s in seeds[:20]])
+            cap = rng.choice([len(x), len(x), len(x) + 100, max(0, len(x) - 1), 0, 1 << 20])
+            hx = frames.hx(m)
+            r = rng.random()
+            if r < 0.45:
+                ops.append("dec %d %s" % (cap, hx)); info.append(("dec", m, cap))
+            elif r < 0.70:
+                ops.append("decs %d %s %s %s" % (cap, hx, rng.choice(["1", "3,1,100", "100000", "7", "2000"]), rng.choice(["100000", "1", "64,5"]))); info.append(("decs", m, cap))
+            elif r < 0.80:
+                ops.append("bufless %d %s" % (cap, hx)); info.append(("bufless", m, cap))
+            elif r < 0.88:
+                ops.append("insp " + hx); info.append(("insp", m, cap))
+            elif r < 0.93:
+                ops.append("fsize " + hx); info.append(("fsize", m, cap))
             else:
-                agree = (c0 == mm) if (c0.startswith("ok") or mm.startswith("ok")) else True
-            if agree:
-                verd["ok/ok" if c0.startswith("ok") else "err/err"] += 1
+                d = rng.choice(MAGICS[-1:] + [b""]) + datagen.randbytes(rng, rng.choice([0, 4, 8, 40, 300])) + (f[:rng.randint(0, 200)])
+                ops.append("ddict " + frames.hx(d)); info.append(("ddict", d, 0))
+        # directed VALID inputs (untrusted input includes perfectly valid frames): raw literals referenced in place inside the last block of an
+        # exact-size input, short sequences section behind them, long literal runs ending at the end of the literals (over-reading copies)
+        nvalid = 0
+        for i in range(nraw):
+            f, x = synth.rawlit_tail(rng)
+            hx = frames.hx(f)
+            cap = rng.choice([len(x) + 32, len(x) + 64, len(x) + 1000, len(x), 1 << 20])
+            r = i % 4
+            if r < 2:
+                ops.append("dec %d %s" % (cap, hx)); info.append(("dec", f, cap))
+            elif r == 2:
+                ops.append("decs %d %s %s %s" % (cap, hx, rng.choice(["100000", "100000", "7,100000"]), "100000")); info.append(("decs", f, cap))
             else:
-                ctx.violation("decoder verdict differs from the independent Lean decoder on a mutated frame: impl=%r model=%r" % (c0, mm),
-                              dict(kind="tie", correspondence="ZSTD_decompress vs Model/Frame.decompressAll", op=ops[i][:400000], impl=c0, model=mm), no_input=True)
-        if kind == "ddict" and "ROUNDTRIP-FAIL" in " ".join(c):
-            ctx.violation("a dictionary accepted by both loaders does not round-trip", dict(kind="monitor", op=ops[i][:400000], result=c))
-        if len(ctx.violations) >= 6:
-            break
-    kinds = {}
-    for k, _, _ in info:
-        kinds[k] = kinds.get(k, 0) + 1
-    return dict(evaluations=ev + ev_settings["trsweep_evals"] + ev_settings["sdhist_steps"], distinct_nontrivial=len({m for k, m, c in info if len(m) > 8}),
+                ops.append("bufless %d %s" % (cap, hx)); info.append(("bufless", f, cap))
+            nvalid += 1
+        for n, fid in ((1, 1000), (1, 7), (16, 1003), (17, 5), (48, 1), (63, 99), (64, 200), (65, 1064), (130, 77)):
+            ops.append("multidd %d %d" % (n, fid)); info.append(("multidd", b"", 0))
+        chunks = frames.split_chunks(list(range(len(ops))), 16)
+        def run(idx):
+            rc, out, err = frames.run_lines(exe, [ops[i] for i in idx], timeout=900)
+            return [(rc, out, err, idx)]
+        res = frames.parallel(run, chunks)
+        cres = {}
+        for rc, out, err, idx in res:
+            # multidd prints 2 lines
+            k = 0
+            for i in idx:
+                nl = 2 if ops[i].startswith("multidd") else 1
+                cres[i] = out[k:k + nl] if k + nl <= len(out) else None
+                k += nl
+            if rc != 0:
+                # first op without complete output is the culprit
+                bad = next((i for i in idx if cres[i] is None or (cres[i] and cres[i][-1] == "TIMEOUT")), idx[-1])
+                what = "did not return within its alarm (hang)" if any(o == "TIMEOUT" for o in out) else "aborted (sanitizer report / crash)"
+                ctx.violation("decoding entry point %s on untrusted input: %s %s" % (what, ops[bad][:80], err[-600:]),
+                              dict(kind="monitor", op=ops[bad][:400000], stderr=err[-3000:]))
+        ev_settings = settings_and_histories(ctx, plain) if first else None
+        # the prefetching ("long") sequence decoder, normally reached only behind a cold dictionary or > 16 MiB of history: the sanitizer build with
+        # that decoder forced decodes frames with > 64 KiB of literals and a few very long matches (split literal buffer, hand-over among the last
+        # sequences) into exact, slightly too small and far too small capacities, plus mutants of those frames and a sample of the other operations
+        lexe = frames.harness("seqlongsan")
+        lops = []
+        for i in range(nbig):
+            f, x, hand = synth.biglit_frame(rng, True)
+            if i % 3 == 2:
+                f = mutate(rng, f, [])
+            cap = rng.choice([len(x), len(x) - 1, len(x) - rng.randint(2, 600), len(x) - rng.randint(600, 6000), rng.randrange(0, len(x)), len(x) + 64])
+            if hand and hand[1] > 0 and i % 2 == 0:
+                # the destination ends inside the literals that the hand-over sequence still has to copy out of the destination-resident part
+                cap = hand[0] + rng.randrange(0, hand[1])
+            lops.append(rng.choice(["dec %d %s", "dec %d %s", "bufless %d %s"]) % (max(0, cap), frames.hx(f)) if i % 4 else "decs %d %s %s %s" % (max(0, cap), frames.hx(f), rng.choice(["100000", "1000", "7,100000"]), rng.choice(["100000", "1000"])))
+        for i in range(nover):
+            # invalid frames: the first match fills the destination to a few bytes before its end, the next literal run crosses the hand-over point
+            f, cap = synth.overfull_frame(rng)
+            lops.append(rng.choice(["dec %d %s", "dec %d %s", "bufless %d %s"]) % (cap, frames.hx(f)) if i % 4 else "decs %d %s %s %s" % (cap, frames.hx(f), "100000", "100000"))
+        lops += [ops[i] for i in range(0, len(ops), 25) if ops[i].split()[0] in ("dec", "decs", "bufless")]
+        def lrun(idx):
+            rc, out, err = frames.run_lines(lexe, [lops[i] for i in idx], timeout=900)
+            return [(rc, out, err, idx)]
+        for rc, out, err, idx in frames.parallel(lrun, frames.split_chunks(list(range(len(lops))), 16)):
+            ev_long = len(out)
+            if rc != 0:
+                bad = idx[min(len(out), len(idx) - 1)]
+                ctx.violation("decoding entry point aborted (sanitizer report / crash) in the build with the prefetching sequence decoder forced: %s %s" % (lops[bad][:80], err[-600:]),
+                              dict(kind="monitor", op=lops[bad][:400000], variant="seqlongsan", stderr=err[-3000:]))
+            for i, o in zip(idx, out):
+                w = lops[i].split()
+                if o.startswith("ok") and w[0] in ("dec", "decs", "bufless") and int(o.split()[1]) > int(w[1]):
+                    ctx.violation("%s (prefetching decoder) returned %s bytes for capacity %s" % (w[0], o.split()[1], w[1]), dict(kind="monitor", op=lops[i][:400000], variant="seqlongsan", result=o))
+        # model comparison for one-shot decode + frame size
+        mi = [i for i in range(len(ops)) if info[i][0] in ("dec", "fsize")]
+        mres = dict(zip(mi, frames.parallel(lambda ch: frames.model_lines(ch), frames.split_chunks([ops[i] for i in mi], 16))))
+        verd = {"ok/ok": 0, "err/err": 0, "lax": 0, "legacy": 0}
+        ev = 0
+        for i in range(len(ops)):
+            c = cres.get(i)
+            if not c:
+                continue
+            ev += 1
+            kind, m, cap = info[i]
+            c0 = c[0]
+            if kind in ("dec", "decs", "bufless") and c0.startswith("ok"):
+                n = int(c0.split()[1])
+                if n > cap:
+                    ctx.violation("%s returned %d bytes for capacity %d" % (kind, n, cap), dict(kind="monitor", op=ops[i][:400000], result=c0))
+            if kind == "decs" and "calls=" in c0 and int(c0.split("calls=")[1].split()[0]) >= 1999999:
+                ctx.violation("streaming decoder looped without progress", dict(kind="monitor", op=ops[i][:400000], result=c0))
+            if i in mres:
+                mm = mres[i]
+                if mm.startswith("err lax") :
+                    verd["lax"] += 1; continue
+                if mm.startswith("err legacy"):
+                    verd["legacy"] += 1; continue
+                if kind == "fsize":
+                    agree = (c0 == mm) or (c0.startswith("err") and mm.startswith("err"))
+                else:
+                    agree = (c0 == mm) if (c0.startswith("ok") or mm.startswith("ok")) else True
+                if agree:
+                    verd["ok/ok" if c0.startswith("ok") else "err/err"] += 1
+                else:
+                    ctx.violation("decoder verdict differs from the independent Lean decoder on a mutated frame: impl=%r model=%r" % (c0, mm),
+                                  dict(kind="tie", correspondence="ZSTD_decompress vs Model/Frame.decompressAll", op=ops[i][:400000], impl=c0, model=mm), no_input=True)
+            if kind == "ddict" and "ROUNDTRIP-FAIL" in " ".join(c):
+                ctx.violation("a dictionary accepted by both loaders does not round-trip", dict(kind="monitor", op=ops[i][:400000], result=c))
+            if len(ctx.violations) >= 6:
+                break
+        kinds = {}
+        for k, _, _ in info:
+            kinds[k] = kinds.get(k, 0) + 1
+        return dict(ev=ev, verd=verd, kinds=kinds, distinct={hash(m) for k, m, c in info if len(m) > 8}, settings=ev_settings,
+                    samples=[dict(op=ops[j][:90], impl=(cres.get(j) or ["?"])[0][:80], model=mres.get(j, "-")[:60]) for j in (0, 1, 2)])
+    if ctx.quick():
+        parts = [batch(30000, 400, 120, 60, True)]
+    else:
+        parts = []
+        for bi in range(20):
+            parts.append(batch(30000, 300, 100, 50, bi == 0))
+            if len(ctx.violations) >= 6:
+                break
+    ev = sum(p_["ev"] for p_ in parts)
+    ev_settings = parts[0]["settings"]
+    verd, kinds, distinct = {}, {}, set()
+    for p_ in parts:
+        for k, v in p_["verd"].items(): verd[k] = verd.get(k, 0) + v
+        for k, v in p_["kinds"].items(): kinds[k] = kinds.get(k, 0) + v
+        distinct |= p_["distinct"]
+    return dict(evaluations=ev + ev_settings["trsweep_evals"] + ev_settings["sdhist_steps"], distinct_nontrivial=len(distinct),
                 rule="structure-aware mutants (bit flips biased to headers, byte replacement, truncation, range overwrite / delete / duplicate, splices, random bytes behind zstd / skippable / legacy / dictionary magics) of frames "
                      "from the real compressor; each through one entry point among {decompress, decompressStream under a segmentation, buffer-less decompressContinue, frame inspectors, findFrameCompressedSize, dictionary loaders on both sides} "
                      "plus multi-DDict lookups with unregistered dictIDs at table sizes around the expansion points; ASan+UBSan build, exact-size buffers, 60 s alarm per operation; distinct = distinct mutant bytes > 8; "
                      "plus (settings_and_histories) every truncation of valid frames x the cross product of the decompression parameters x {one-shot, DDict, streaming} from exact-size inputs, and histories of frames through static "
                      "decoding contexts of sizes around the estimate (exact-size heap block and canary arena; verdict after a reset = verdict of a fresh context = room test of Model/DBuf)",
-                samples=[dict(op=ops[j][:90], impl=(cres.get(j) or ["?"])[0][:80], model=mres.get(j, "-")[:60]) for j in (0, 1, 2)],
+                samples=parts[0]["samples"],
                 entry_points=kinds, verdict_agreement=verd, settings_and_histories=ev_settings)
 
 
